@@ -705,6 +705,17 @@ func (t *tr2) rangeStmt(x *ast.RangeStmt, c *fctx, rest func() string) string {
 	xt := t.info.TypeOf(x.X)
 	xs := t.expr(x.X, &xb)
 	vars := t.assignedOutside(x.Body, ko, vo)
+	if isSlice(xt) {
+		// Go reads the elements of a ranged SLICE live: a write to it in the body would be seen by
+		// later iterations (an array is ranged over a copy)
+		if rid := rootIdent(x.X); rid != nil {
+			for _, o := range vars {
+				if o == t.info.Uses[rid] {
+					t.fail(x, "the ranged slice %s is assigned in the loop body", rid.Name)
+				}
+			}
+		}
+	}
 	pat, val := tuple(vars)
 	lc := t.loopCtx(c, val)
 	body := t.stmts(x.Body.List, lc, func() string { return lc.next })
